@@ -35,8 +35,8 @@ func init() { hx.Register("C40", Run) }
 // Step is one operation of a history; the script (with the per-block transaction counts) is the
 // replayable input.
 type Step struct {
-	Op  string `json:"op"`            // commit | stale | future | header | badheader | reopen | check
-	Idx int    `json:"idx,omitempty"` // block index for stale/future/badheader
+	Op  string `json:"op"`            // commit | stale | future | header | badheader | forkheader | reopen | check
+	Idx int    `json:"idx,omitempty"` // block index for stale/future/badheader; distance below the tip for forkheader
 	All bool   `json:"all,omitempty"` // check: query every height (else a sample)
 }
 
@@ -410,6 +410,26 @@ func (r *runner) step(s Step) {
 		}
 		r.addOp(fmt.Sprintf("XHeader %s %s", coqHeader(h), status))
 		r.c.Count("op:" + s.Op + " " + status)
+	case "forkheader":
+		// a correctly signed header that differs from the committed block at a committed height
+		// (Idx below the tip): AddHeader must refuse it, the committed chain stays what it is
+		idx := r.cur - s.Idx
+		if idx < 1 || idx >= len(r.src) {
+			return
+		}
+		o := r.src[idx].Header
+		fork := &types.Block{Header: &types.Header{Version: o.Version, PrevBlockHash: o.PrevBlockHash, TransactionsRoot: o.TransactionsRoot,
+			BlockRoot: o.BlockRoot, Timestamp: o.Timestamp, Height: o.Height, ConsensusData: o.ConsensusData + 77,
+			ConsensusPayload: o.ConsensusPayload, NextBookkeeper: o.NextBookkeeper}, Transactions: r.src[idx].Transactions}
+		r.k.SignBlock(fork)
+		err := st.AddHeader(fork.Header)
+		status := statusOf(err, true)
+		if err == nil {
+			r.fail("header-over-committed", "AddHeader accepted a header at a height that already holds a committed block",
+				map[string]interface{}{"height": idx, "current": r.cur}, "rejected")
+		}
+		r.addOp(fmt.Sprintf("XHeader %s %s", coqHeader(fork.Header), status))
+		r.c.Count("op:forkheader " + status)
 	case "reopen":
 		r.k.Close()
 		if err := r.k.Open(); err != nil {
@@ -538,7 +558,11 @@ func genSmall(c *hx.Ctx, n, maxTx int) History {
 		case x == 12:
 			h.Steps = append(h.Steps, Step{Op: "badheader", Idx: c.Intn(n + 1)})
 		case x == 13:
-			h.Steps = append(h.Steps, Step{Op: "stale", Idx: c.Intn(committed + 1)})
+			if c.Intn(2) == 0 {
+				h.Steps = append(h.Steps, Step{Op: "stale", Idx: c.Intn(committed + 1)})
+			} else {
+				h.Steps = append(h.Steps, Step{Op: "forkheader", Idx: c.Intn(2)})
+			}
 		case x == 14:
 			if committed+2 <= n {
 				h.Steps = append(h.Steps, Step{Op: "future", Idx: committed + 2 + c.Intn(n-committed-1)})
@@ -550,7 +574,7 @@ func genSmall(c *hx.Ctx, n, maxTx int) History {
 			h.Steps = append(h.Steps, Step{Op: "check", All: true})
 		}
 	}
-	h.Steps = append(h.Steps, Step{Op: "check", All: true}, Step{Op: "reopen"}, Step{Op: "check", All: true})
+	h.Steps = append(h.Steps, Step{Op: "check", All: true}, Step{Op: "reopen"}, Step{Op: "forkheader"}, Step{Op: "check", All: true})
 	return h
 }
 
@@ -594,7 +618,7 @@ func genLong(c *hx.Ctx, n int, headerFirst bool) History {
 	commits(b) // crosses the window
 	h.Steps = append(h.Steps, Step{Op: "check", All: true}, Step{Op: "reopen"}, Step{Op: "check", All: true})
 	commits(rest - b)
-	h.Steps = append(h.Steps, Step{Op: "stale", Idx: 1}, Step{Op: "check"}, Step{Op: "reopen"}, Step{Op: "check"})
+	h.Steps = append(h.Steps, Step{Op: "stale", Idx: 1}, Step{Op: "check"}, Step{Op: "reopen"}, Step{Op: "forkheader"}, Step{Op: "check"})
 	return h
 }
 
